@@ -265,3 +265,211 @@ Proof.
   - rewrite (filter_filter_same (fun h => negb (is_dotted h))), filter_neg_filter, app_nil_r. reflexivity.
   - rewrite filter_filter_neg, filter_filter_same. reflexivity.
 Qed.
+
+(* ================================================================== 3. any sufficient fuel gives the same answer *)
+Lemma foldM_ext_in {E S A} (f g : A -> S -> result E A) l :
+  (forall a x, In x l -> f a x = g a x) -> forall a, foldM f l a = foldM g l a.
+Proof.
+  induction l as [|x l IH]; intros H a; [reflexivity|]. cbn [foldM].
+  rewrite (H a x (or_introl eq_refl)). destruct (g a x); [|reflexivity].
+  apply IH. intros a0 x0 Hin. apply H. right. exact Hin.
+Qed.
+
+Lemma infer_rec_fuel_irrelevant f1 : forall f2 hs,
+  (max_len hs < f1)%nat -> (max_len hs < f2)%nat -> infer_rec f1 hs = infer_rec f2 hs.
+Proof.
+  induction f1 as [|f1 IH]; intros f2 hs H1 H2; [lia|]. destruct f2 as [|f2]; [lia|].
+  cbn [infer_rec]. destruct (foldM step hs ([], [])) as [[F C]|e] eqn:E1; [|reflexivity].
+  assert (HC : subs_below (max_len hs) C).
+  { apply (fold_step_subs_below (max_len hs) hs [] [] F C); [apply length_le_max_len|constructor|exact E1]. }
+  match goal with
+  | |- match foldM ?g1 C F with _ => _ end = match foldM ?g2 C F with _ => _ end =>
+    rewrite (foldM_ext_in g1 g2 C); [reflexivity|]
+  end.
+  intros a [k l] Hin. cbn [fst snd]. unfold subs_below in HC. rewrite Forall_forall in HC.
+  specialize (HC _ Hin). cbn [snd] in HC. rewrite (IH f2 l) by lia. reflexivity.
+Qed.
+
+Lemma infer_any_fuel hs fuel : (max_len hs < fuel)%nat -> infer hs = infer_rec fuel hs.
+Proof. intros H. unfold infer. apply infer_rec_fuel_irrelevant; lia. Qed.
+
+(* ================================================================== 4. what the dotted columns contribute *)
+(* keys in order of first appearance *)
+Definition add_key (seen : list str) (k : str) : list str := if str_in k seen then seen else seen ++ [k].
+Definition add_keys (seen l : list str) : list str := fold_left add_key l seen.
+Definition first_occ (l : list str) : list str := add_keys [] l.
+
+(* the sub-headers of prefix [k], in column order *)
+Definition subs_for (k : str) (ps : list (str * str)) : list str :=
+  map snd (filter (fun p : str * str => str_eqb (fst p) k) ps).
+
+Definition prefixes (hs : list str) : list str := first_occ (map fst (pairs_of hs)).
+Definition subs_of (k : str) (hs : list str) : list str := subs_for k (pairs_of hs).
+
+Lemma str_eqb_neq a b : a <> b -> str_eqb a b = false.
+Proof. intros H. destruct (str_eqb a b) eqn:E; [apply str_eqb_eq in E; contradiction|reflexivity]. Qed.
+
+Lemma str_in_sget {T} (d : sdict T) k : str_in k (map fst d) = match sget d k with Some _ => true | None => false end.
+Proof.
+  unfold sget. induction d as [|[k' v] d IH]; [reflexivity|]. cbn [map fst str_in oget].
+  destruct (str_eqb k' k); [reflexivity|]. exact IH.
+Qed.
+
+Lemma keys_sset {T} (d : sdict T) k v : map fst (sset d k v) = add_key (map fst d) k.
+Proof.
+  unfold add_key. rewrite str_in_sget. destruct (sget d k) eqn:E.
+  - apply (okeys_oset_in str_eqb). unfold sget in E. congruence.
+  - apply (okeys_oset_new str_eqb). exact E.
+Qed.
+
+Lemma keys_add_pairs ps : forall C, map fst (fold_left add_pair ps C) = add_keys (map fst C) (map fst ps).
+Proof.
+  induction ps as [|p ps IH]; intros C; [reflexivity|]. cbn [fold_left map]. unfold add_keys. cbn [fold_left].
+  rewrite IH. unfold add_pair. rewrite keys_sset. reflexivity.
+Qed.
+
+Definition lookup_spec (C : sdict (list str)) (ps : list (str * str)) (k : str) : option (list str) :=
+  match sget C k with
+  | Some l => Some (l ++ subs_for k ps)
+  | None => match subs_for k ps with [] => None | l => Some l end
+  end.
+
+Lemma sget_add_pairs ps : forall C k, sget (fold_left add_pair ps C) k = lookup_spec C ps k.
+Proof.
+  induction ps as [|[a b] ps IH]; intros C k.
+  - unfold lookup_spec, subs_for. cbn [fold_left filter map]. destruct (sget C k); [rewrite app_nil_r|]; reflexivity.
+  - cbn [fold_left]. rewrite IH. unfold lookup_spec, add_pair, subs_for. cbn [fst snd filter].
+    destruct (str_eqb a k) eqn:E.
+    + apply str_eqb_eq in E. subst a. unfold sget, sset.
+      rewrite (oget_oset_same str_eqb str_eqb_eq). cbn [map snd].
+      destruct (oget str_eqb C k); [rewrite <- app_assoc|]; reflexivity.
+    + unfold sget, sset. rewrite (oget_oset_other str_eqb str_eqb_eq)
+        by (intros ->; rewrite str_eqb_refl in E; discriminate).
+      reflexivity.
+Qed.
+
+Lemma nodup_add_pairs ps : forall C, NoDup (map fst C) -> NoDup (map fst (fold_left add_pair ps C)).
+Proof.
+  induction ps as [|p ps IH]; intros C H; [exact H|]. cbn [fold_left]. apply IH.
+  unfold add_pair, sset. apply (oset_nodup str_eqb str_eqb_eq). exact H.
+Qed.
+
+Lemma sdict_ext {T} (d1 : sdict T) : forall d2,
+  NoDup (map fst d1) -> map fst d1 = map fst d2 -> (forall k, sget d1 k = sget d2 k) -> d1 = d2.
+Proof.
+  induction d1 as [|[k v] d1 IH]; intros [|[k2 v2] d2] Hnd Hk Hg; try discriminate; [reflexivity|].
+  cbn [map fst] in Hk. inversion Hk as [[Hk1 Hk2]]. subst k2.
+  cbn [map fst] in Hnd. inversion Hnd as [|? ? Hnotin Hnd']; subst.
+  pose proof (Hg k) as Hgk. unfold sget in Hgk. cbn [oget] in Hgk. rewrite str_eqb_refl in Hgk.
+  inversion Hgk; subst v2. f_equal. apply IH; [exact Hnd'|exact Hk2|].
+  intros k'. destruct (str_eqb k k') eqn:E.
+  - apply str_eqb_eq in E. subst k'.
+    assert (H1 : sget d1 k = None) by (apply sget_none_notin; exact Hnotin).
+    assert (H2 : sget d2 k = None) by (apply sget_none_notin; rewrite <- Hk2; exact Hnotin).
+    rewrite H1, H2. reflexivity.
+  - specialize (Hg k'). unfold sget in *. cbn [oget] in Hg. rewrite E in Hg. exact Hg.
+Qed.
+
+(* the dictionary of sub-headers is determined by the order of first appearance of the
+   prefixes and by the sub-headers of each prefix in order *)
+Lemma complex_determined ps1 ps2 :
+  first_occ (map fst ps1) = first_occ (map fst ps2) ->
+  (forall k, subs_for k ps1 = subs_for k ps2) ->
+  fold_left add_pair ps1 [] = fold_left add_pair ps2 [].
+Proof.
+  intros Hk Hs. apply sdict_ext.
+  - apply nodup_add_pairs. constructor.
+  - rewrite !keys_add_pairs. exact Hk.
+  - intros k. rewrite !sget_add_pairs. unfold lookup_spec. rewrite Hs. reflexivity.
+Qed.
+
+(* the full-strength order fact: the inferred model is a function of
+   (the plain columns in order, the dotted prefixes in order of first appearance,
+    the sub-headers of each prefix in order) *)
+Theorem infer_partition_invariant hs1 hs2 :
+  plain_of hs1 = plain_of hs2 ->
+  prefixes hs1 = prefixes hs2 ->
+  (forall k, subs_of k hs1 = subs_of k hs2) ->
+  infer hs1 = infer hs2.
+Proof.
+  intros Hp Hk Hs.
+  rewrite (infer_any_fuel hs1 (S (Nat.max (max_len hs1) (max_len hs2)))) by lia.
+  rewrite (infer_any_fuel hs2 (S (Nat.max (max_len hs1) (max_len hs2)))) by lia.
+  cbn [infer_rec]. rewrite !fold_step_split, Hp.
+  rewrite (complex_determined (pairs_of hs1) (pairs_of hs2) Hk Hs). reflexivity.
+Qed.
+
+(* ================================================================== 5. field order follows first occurrence *)
+Lemma in_add_keys l : forall seen x, In x (add_keys seen l) <-> In x seen \/ In x l.
+Proof.
+  induction l as [|y l IH]; intros seen x; cbn [add_keys fold_left]; [cbn; tauto|].
+  fold (add_keys (add_key seen y) l). rewrite IH. unfold add_key.
+  destruct (str_in y seen) eqn:E.
+  - apply str_in_In in E. cbn [In]. split; [tauto|]. intros [H|[H|H]]; subst; tauto.
+  - rewrite in_app_iff. cbn [In]. tauto.
+Qed.
+
+Lemma add_keys_app seen l1 l2 : add_keys seen (l1 ++ l2) = add_keys (add_keys seen l1) l2.
+Proof. unfold add_keys. apply fold_left_app. Qed.
+
+Lemma add_keys_add_key acc seen x : add_keys acc (add_key seen x) = add_key (add_keys acc seen) x.
+Proof.
+  unfold add_key at 1. destruct (str_in x seen) eqn:E.
+  - apply str_in_In in E. unfold add_key.
+    assert (H : In x (add_keys acc seen)) by (apply in_add_keys; right; exact E).
+    apply str_in_In in H. rewrite H. reflexivity.
+  - rewrite add_keys_app. reflexivity.
+Qed.
+
+Lemma add_keys_absorb l : forall acc seen, add_keys acc (add_keys seen l) = add_keys (add_keys acc seen) l.
+Proof.
+  induction l as [|x l IH]; intros acc seen; [reflexivity|].
+  change (add_keys seen (x :: l)) with (add_keys (add_key seen x) l).
+  rewrite IH, add_keys_add_key. reflexivity.
+Qed.
+
+Lemma add_keys_first_occ acc l : add_keys acc (first_occ l) = add_keys acc l.
+Proof. unfold first_occ. rewrite add_keys_absorb. reflexivity. Qed.
+
+Lemma keys_step_plain l : forall F F',
+  foldM step_plain l F = Ok F' -> map fst F' = add_keys (map fst F) (map get_field_name l).
+Proof.
+  induction l as [|h l IH]; intros F F'; cbn [foldM].
+  - intros H. inversion H. reflexivity.
+  - unfold step_plain at 1. destruct (parse_header_annotations h) as [m|e]; [|discriminate].
+    intros H. rewrite (IH _ _ H), keys_sset. reflexivity.
+Qed.
+
+Lemma keys_children f C : forall F F',
+  foldM (child_step f) C F = Ok F' -> map fst F' = add_keys (map fst F) (map fst C).
+Proof.
+  induction C as [|[k l] C IH]; intros F F'; cbn [foldM].
+  - intros H. inversion H. reflexivity.
+  - unfold child_step at 1. cbn [fst snd]. destruct (infer_rec f l) as [m|e]; [|discriminate].
+    intros H. rewrite (IH _ _ H), keys_sset. reflexivity.
+Qed.
+
+Lemma finish_class F fields d : finish F = Ok (TRec fields, d) -> fields = F.
+Proof.
+  unfold finish. destruct (rev (int_entries F)) as [|[z [t dd]] r].
+  - intros H. inversion H. reflexivity.
+  - destruct (dict_to_list _); discriminate.
+Qed.
+
+(* when a class is inferred, its fields are: the names of the plain columns in order of
+   first occurrence, then the dotted prefixes in order of first occurrence (a prefix that
+   is also the name of a plain column keeps the position of the plain column) *)
+Theorem infer_field_order hs fields d :
+  infer hs = Ok (TRec fields, d) ->
+  map fst fields = first_occ (map get_field_name (plain_of hs) ++ map fst (pairs_of hs)).
+Proof.
+  unfold infer. cbn [infer_rec]. rewrite fold_step_split.
+  destruct (foldM step_plain (plain_of hs) []) as [F|e] eqn:E1; [|discriminate].
+  match goal with |- context [foldM ?g ?C F] => change (foldM g C F) with (foldM (child_step (max_len hs)) C F) end.
+  destruct (foldM (child_step (max_len hs)) _ F) as [F'|e] eqn:E2; [|discriminate].
+  intros H. apply finish_class in H. subst fields.
+  etransitivity; [apply (keys_children _ _ _ _ E2)|].
+  rewrite (keys_step_plain _ _ _ E1), keys_add_pairs.
+  cbn [map]. unfold first_occ at 1. rewrite add_keys_app. fold (first_occ (map fst (pairs_of hs))).
+  rewrite add_keys_first_occ. reflexivity.
+Qed.
